@@ -95,11 +95,14 @@ def translate(repo):
 # individuals, evaluation functions, toolboxes
 # ------------------------------------------------------------------------------------------
 
-def _cls(rep, weights):
-    wname = "_".join(("p" if w > 0 else "m") for w in weights)
+def _cls(rep, weights, cons=False):
+    # cons: the fitness class derives from base.ConstrainedFitness (feasible individuals: no violation record).  Its
+    # `values` deleter is its own, so anything a Fitness remembers besides `wvalues` survives `del fitness.values`
+    # unless that deleter clears it too (seeded change C03-r7m1: a varied clone stayed "valid" and was never re-evaluated)
+    wname = "_".join(("p" if w > 0 else "m") for w in weights) + ("_c" if cons else "")
     fname = "C03Fit_" + wname
     if not hasattr(creator, fname):
-        creator.create(fname, base.Fitness, weights=tuple(float(w) for w in weights))
+        creator.create(fname, base.ConstrainedFitness if cons else base.Fitness, weights=tuple(float(w) for w in weights))
     name = "C03_%s_%s" % (rep, wname)
     if not hasattr(creator, name):
         creator.create(name, {"list": list, "tree": gp.PrimitiveTree}[rep], fitness=getattr(creator, fname))
@@ -427,7 +430,7 @@ def evaluate(d):
     ngen = d["ngen"]
     rng = random.Random(d["seed"])
     rep = "tree" if fam == "gp" else "list"
-    cls = _cls(rep, weights)
+    cls = _cls(rep, weights, bool(d.get("cons")))
     inds = []
     for s in d["inds"]:
         ind = cls(c02.tree_nodes(s["g"])) if rep == "tree" else cls(int(x) for x in s["g"])
@@ -889,6 +892,13 @@ def generate(tier, rng, mult):
             d = mk_case(rng, loop, ngen)
             # every loop with and without hall of fame / Statistics / verbose output
             d["hof"], d["stats"], d["verbose"] = k % 2 == 0, k % 4 < 2, k == 3
+            yield d
+    # the same loops on individuals whose fitness class derives from ConstrainedFitness
+    for loop in ["simple", "plus", "comma", "plusbest", "gu", "gpsimple"]:
+        for ngen in (1, 2, 3):
+            d = mk_case(rng, loop, ngen)
+            d["hof"], d["stats"], d["verbose"] = True, ngen == 2, False
+            d["cons"] = 1
             yield d
     # composed clauses first-class: hall of fame + statistics on, library selectors the model computes itself, small and
     # larger halls of fame, partly pre-evaluated populations (the hall of fame must see valid-on-entry individuals)
